@@ -17,7 +17,9 @@ inductive Ops (al : Bool) (S : List Node) : List Node → List Node → Prop
   | trans {a b c : List Node} : Ops al S a b → Ops al S b c → Ops al S a c
   | group {F ks : List Node} {cls : Cls} {a b : Nat} {ext : Bool} {r : List Node × Node} :
       ks = F ++ S → groupTokens' ks cls a b true ext = .ok r → a ≤ b → b < F.length → plainCls cls = true →
-      (∃ j x, a ≤ j ∧ j ≤ b ∧ ks[j]? = some x ∧ x.isWhitespace = false) → Ops al S ks r.1
+      (∃ j x, a ≤ j ∧ j ≤ b ∧ ks[j]? = some x ∧ x.isWhitespace = false) →
+      (cls = .IdentifierList → ∃ j x, a ≤ j ∧ j ≤ b ∧ ks[j]? = some x ∧ x.isWhitespace = false ∧ isComma x = false) →
+      Ops al S ks r.1
   | align {F ks : List Node} {a b : Nat} {r : List Node × Node} {c : Cls} {k : List Node} :
       al = true → ks = F ++ S → groupTokens' ks .TokenList a b true true = .ok r → a ≤ b → b < F.length →
       ks[a]? = some (Node.grp c k) → (∀ x ∈ pySlice ks (a + 1) (b + 1), isTrailing x = true) → Ops al S ks r.1
@@ -27,10 +29,10 @@ inductive Ops (al : Bool) (S : List Node) : List Node → List Node → Prop
 
 theorem Ops.of_groupTokens {al : Bool} {S F ks ks' : List Node} {cls : Cls} {a b : Nat} {ext : Bool}
     (hk : ks = F ++ S) (h : groupTokens ks cls a b true ext = .ok ks') (hab : a ≤ b) (hb : b < F.length)
-    (hp : plainCls cls = true) (hw : ∃ j x, a ≤ j ∧ j ≤ b ∧ ks[j]? = some x ∧ x.isWhitespace = false) :
-    Ops al S ks ks' := by
+    (hp : plainCls cls = true) (hw : ∃ j x, a ≤ j ∧ j ≤ b ∧ ks[j]? = some x ∧ x.isWhitespace = false)
+    (hil : cls ≠ .IdentifierList) : Ops al S ks ks' := by
   obtain ⟨r, hr, rfl⟩ := groupTokens_eq h
-  exact .group hk hr hab hb hp hw
+  exact .group hk hr hab hb hp hw (fun h0 => absurd h0 hil)
 
 /-- the last non-whitespace child: the same, a group, or re-typed -/
 def LastRel (F F' : List Node) : Prop :=
@@ -145,7 +147,7 @@ theorem Ops.suf {al : Bool} {S ks ks' : List Node} (h : Ops al S ks ks') :
     obtain ⟨F1, h1, r1⟩ := ih1 F hF
     obtain ⟨F2, h2, r2⟩ := ih2 F1 h1
     exact ⟨F2, h2, r1.trans r2⟩
-  | @group F0 ks cls a b ext r hk hg hab hb _ _ =>
+  | @group F0 ks cls a b ext r hk hg hab hb _ _ _ =>
     intro F hF
     have : F = F0 := append_inj_right' (hF.symm.trans hk)
     subst this
@@ -167,37 +169,78 @@ theorem Ops.suf {al : Bool} {S ks ks' : List Node} (h : Ops al S ks ks') :
     obtain ⟨h1, h2⟩ := set_suffix hx hi hw
     exact ⟨_, h1, h2⟩
 
-theorem isInst_notWs {g : Node} {cls : Cls} (h : g.isInst cls = true) : g.isWhitespace = false := by
+/-- a test on children that every group passes and that survives re-typing a non-whitespace leaf to `Operator` -/
+structure GoodP (P : Node → Bool) : Prop where
+  grp : ∀ g : Node, g.isGroup = true → P g = true
+  retype : ∀ x : Node, P x = true → x.isWhitespace = false → P (x.setTType T.Operator) = true
+
+theorem any_splice {P : Node → Bool} (ks : List Node) (a e : Nat) {g : Node} (hg : P g = true) :
+    (ks.take a ++ g :: ks.drop e).any P = true := by
+  simp [hg]
+
+theorem isGroup_of_isInst {g : Node} {cls : Cls} (h : g.isInst cls = true) : g.isGroup = true := by
   cases g with
   | tok _ _ => simp [Node.isInst] at h
   | grp _ _ => rfl
 
-theorem hasNW_splice (ks : List Node) (a e : Nat) {g : Node} (hg : g.isWhitespace = false) :
-    hasNW (ks.take a ++ g :: ks.drop e) = true := by
-  simp [hasNW, hg]
-
-/-- the new list still has a non-whitespace child -/
-theorem Ops.hasNW {al : Bool} {S ks ks' : List Node} (h : Ops al S ks ks') : hasNW ks = true → hasNW ks' = true := by
+/-- the new list still has a child passing the test -/
+theorem Ops.anyP {al : Bool} {S ks ks' : List Node} (h : Ops al S ks ks') {P : Node → Bool} (hP : GoodP P) :
+    ks.any P = true → ks'.any P = true := by
   induction h with
   | refl ks => exact id
   | trans _ _ ih1 ih2 => exact fun hi => ih2 (ih1 hi)
-  | group _ hg hab _ _ _ =>
+  | group _ hg hab _ _ _ _ =>
     intro _
     obtain ⟨_, hinst, _⟩ := groupTokens'_at hg
     rw [groupTokens'_shape hg hab]
-    exact hasNW_splice _ _ _ (isInst_notWs hinst)
+    exact any_splice _ _ _ (hP.grp _ (isGroup_of_isInst hinst))
   | align _ _ hg hab _ _ _ =>
     intro _
     obtain ⟨_, hinst, _⟩ := groupTokens'_at hg
     rw [groupTokens'_shape hg hab]
-    exact hasNW_splice _ _ _ (isInst_notWs hinst)
+    exact any_splice _ _ _ (hP.grp _ (isGroup_of_isInst hinst))
   | @retype F ks i x _ hx _ hw =>
-    intro _
+    intro hany
     have hlt : i < ks.length := (List.getElem?_eq_some_iff.1 hx).1
-    have hset : ks.set i (x.setTType T.Operator) = ks.take i ++ x.setTType T.Operator :: ks.drop (i + 1) :=
-      List.set_eq_take_append_cons_drop.trans (by simp [hlt])
-    rw [hset]
-    exact hasNW_splice _ _ _ (headRel_notWs (Or.inr (Or.inr rfl)) hw)
+    obtain ⟨k, hk, hpk⟩ := List.any_eq_true.1 hany
+    obtain ⟨j, hj, hkj⟩ := List.getElem_of_mem hk
+    by_cases hji : j = i
+    · subst hji
+      have : x = k := by rw [List.getElem?_eq_getElem hj] at hx; rw [← hkj]; exact (Option.some.inj hx).symm
+      subst this
+      refine List.any_eq_true.2 ⟨x.setTType T.Operator, ?_, hP.retype x hpk hw⟩
+      exact List.mem_of_getElem? (by rw [List.getElem?_set_self hlt])
+    · refine List.any_eq_true.2 ⟨k, ?_, hpk⟩
+      have : (ks.set i (x.setTType T.Operator))[j]? = some k := by
+        rw [List.getElem?_set_ne (by omega), List.getElem?_eq_getElem hj, hkj]
+      exact List.mem_of_getElem? this
+
+theorem goodP_nw : GoodP (fun k => !k.isWhitespace) where
+  grp := fun g hg => by cases g with
+    | tok _ _ => cases hg
+    | grp _ _ => rfl
+  retype := fun x _ hw => by
+    have := headRel_notWs (x := x) (Or.inr (Or.inr rfl)) hw
+    simp [this]
+
+theorem goodP_il : GoodP (fun k => !(k.isWhitespace || isComma k)) where
+  grp := fun g hg => by cases g with
+    | tok _ _ => cases hg
+    | grp _ _ => rfl
+  retype := fun x hp hw => by
+    cases x with
+    | grp _ _ => exact hp
+    | tok tt v =>
+      simp (config := { decide := true }) [Node.setTType, Node.isWhitespace, isComma, TType.isIn, T.Operator, T.Whitespace,
+        T.Punctuation]
+
+theorem Ops.hasNW {al : Bool} {S ks ks' : List Node} (h : Ops al S ks ks') : hasNW ks = true → hasNW ks' = true :=
+  h.anyP goodP_nw
+
+theorem isInst_notWs {g : Node} {cls : Cls} (h : g.isInst cls = true) : g.isWhitespace = false := by
+  cases g with
+  | tok _ _ => simp [Node.isInst] at h
+  | grp _ _ => rfl
 
 end DC
 end Sql
